@@ -1,6 +1,7 @@
 CONSTANTS
   MaxSteps = 12
   MaxLen = 3
+  PasteExec = FALSE
   Orig = TRUE
 SPECIFICATION Spec
 INVARIANTS CursorInside Conform WordCmdsConform WordSane
